@@ -162,7 +162,7 @@ pub fn gen_setup(r: &mut Sm, p: &Profile) -> Setup {
     };
     Setup {
         id: VId::new(1, *r.pick(&[0u16, 1, 1, 2])),
-        policy: *r.pick(&[Policy::None, Policy::Bump, Policy::Bump, Policy::Same, Policy::Lose]),
+        policy: *r.pick(&[Policy::None, Policy::Bump, Policy::Bump, Policy::Same, Policy::Lose, Policy::SameEq]),
         codec,
         handler,
         cfg: gen_cfg(r, p, codec),
@@ -414,7 +414,7 @@ pub fn gen_op(r: &mut Sm, p: &Profile, inst: &Instance, ctx: &Ctx) -> Op {
                 3 => VId::new(6, 0),
                 _ => gen_id(r, p, own),
             };
-            Op::ChId(id, *r.pick(&[Policy::None, Policy::Bump, Policy::Same, Policy::Lose]))
+            Op::ChId(id, *r.pick(&[Policy::None, Policy::Bump, Policy::Same, Policy::Lose, Policy::SameEq]))
         }
         _ => {
             let mut c = inst.setup.cfg.clone();
